@@ -176,6 +176,12 @@ class Call:
     def __repr__(self):
         return '<call %s @%s bb%d>' % (self.path or self.decl, self.where(), self.bb)
 
+    def __eq__(self, o):
+        return isinstance(o, Call) and o.body is self.body and o.bb == self.bb
+
+    def __hash__(self):
+        return hash((self.body.path, self.bb))
+
 
 class Body:
     def __init__(self, raw, unit):
